@@ -10,11 +10,20 @@ Element encodings (JSON case  ->  numpy  ->  Coq):
 """
 import struct
 
+import os
+import re
+
 from .. import core
 from ..core import cz, cnat, clist, cbool
 from ..runner import Entry, differential
+from . import c06_translate
 
-PRE = "From EsVerif.Common Require Import Base.\nFrom EsVerif.C06 Require Import Model Spec Exec.\n"
+PRE = "From EsVerif.Common Require Import Base.\nFrom EsVerif.C06 Require Import Model Spec Forms Exec.\n"
+PRE_GEN = PRE + "From EsVerif.C06 Require Import Skel Gen.\n"
+
+# inputs on which the skeleton at the regenerated parameters (Skel.v at Gen.v) violates the property inside Coq
+# (found by the small-scope search when the tie is broken); run first by the entries below
+EXTRA = {"match": [], "unique": [], "rem_dup": []}
 
 INT_KINDS = {"i1": (-2**7, 2**7 - 1), "i2": (-2**15, 2**15 - 1), "i4": (-2**31, 2**31 - 1), "i8": (-2**63, 2**63 - 1),
              "u1": (0, 2**8 - 1), "u2": (0, 2**16 - 1), "u4": (0, 2**32 - 1), "u8": (0, 2**64 - 1)}
@@ -324,6 +333,7 @@ class Match(Entry):
         cs = []
         nmax = ctx.n(12, 40)
         if round == 0:
+            cs += [dict(c) for c in EXTRA["match"]]
             cs += [dict(c) for c in fixed_match_cases()]
             for _ in range(ctx.n(60, 400)):
                 cs.append(gen_scalar_case(r))
@@ -357,7 +367,7 @@ class Match(Entry):
 
     def term(self, c, out):
         k = c["kind"]
-        return "%s_match %s %s %s %s %s" % (pfx(k), cbool(c["presorted"]), cbool(self.multi), cvals(k, c["a1"]), cvals(k, c["a2"]),
+        return "%s_matchx %s %s %s %s %s" % (pfx(k), cbool(c["presorted"]), cbool(self.multi), cvals(k, c["a1"]), cvals(k, c["a2"]),
                                             cres(out, lambda o: "(%s, %s)" % (cnats(o[0]), cnats(o[1]))))
 
     def nontrivial(self, c, out):
@@ -386,6 +396,7 @@ class Unique(Entry):
         r = ctx.rng
         cs = []
         if round == 0:
+            cs += [dict(c) for c in EXTRA["unique"]]
             for a in ([5, 1, 5], [3, 1, 2], [5, 1], [1], [1, 1, 1], [1, 2, 3], [2, 2, 1, 1, 3, 3], []):
                 cs.append({"kind": "i8", "a": a, "family": "hand"})
             cs.append({"kind": "S", "a": [[98], [97], [98]], "family": "hand"})
@@ -439,6 +450,7 @@ class RemDup(Unique):
         r = ctx.rng
         cs = []
         if round == 0:
+            cs += [dict(c) for c in EXTRA["rem_dup"]]
             cs += [{"kind": "i8", "a": [5, 1, 5], "flag": [1, 2, 3], "family": "hand"},
                    {"kind": "i8", "a": [5, 1, 5, 5], "flag": [3, 2, 3, 1], "family": "hand"},
                    {"kind": "i8", "a": [5], "flag": [1], "family": "hand"},
